@@ -613,7 +613,8 @@ func switchNud(p *parser, t *token) *token {
 	for {
 		if p.Token.Symbol == "case" {
 			c := p.Advance("case")
-			c.Append(p.Statement())
+			// the case expression is a value, not a statement: a call in it yields its result
+			c.Append(p.Expression(0, ":"))
 			p.Advance(":")
 			c.Append(getCase(p))
 			cases.Append(c)
